@@ -4052,6 +4052,8 @@ class DecAffine(Affine):
     def __add__(self, other):
 
         expr = super().__add__(other)
+        if expr is NotImplemented:
+            return NotImplemented
 
         if isinstance(other, (DecAffine, DecVar, DecVarSub)):
             other = other.to_affine()
